@@ -23,7 +23,12 @@ use akd_core::{
     AkdLabel, AkdValue, AzksValue, AzksValueWithEpoch, Configuration, NodeLabel, VersionFreshness,
 };
 
+#[cfg(all(kani, not(test)))]
 pub const CAP: usize = 40;
+/// native replay runs the real tree verifiers instead of the membership oracle and rebuilds the
+/// reference trie for every proof: many more hash calls (equal entries are not appended there)
+#[cfg(any(not(kani), test))]
+pub const CAP: usize = 4096;
 /// first raw (non-output) name
 pub const RAW0: u16 = 0x4000;
 
@@ -56,13 +61,13 @@ pub static mut N: usize = 0;
 pub static mut OVERFLOW: bool = false;
 
 #[cfg(all(kani, not(test)))]
-fn exclude_path() {
+fn exclude_path(_why: &'static str) {
     kani::assume(false);
 }
 #[cfg(any(not(kani), test))]
-fn exclude_path() {
+fn exclude_path(why: &'static str) {
     // native replay: the solver never produces values on an excluded path
-    panic!("model: excluded path reached natively");
+    panic!("model: excluded path reached natively ({})", why);
 }
 
 pub fn reset() {
@@ -82,17 +87,30 @@ pub fn intern(e: Entry) -> u16 {
         let n = N;
         if n >= CAP {
             OVERFLOW = true;
-            exclude_path();
+            exclude_path("hash table capacity");
             return RAW0 - 1;
         }
         // digest arguments must not name a slot that is not filled yet
         if is_future(e.a, n) || is_future(e.b, n) {
-            exclude_path();
+            exclude_path("digest argument names an unfilled slot");
         }
         TAB[n] = e;
         N = n + 1;
         // straight-line scan of the filled part (no loop: keeps CBMC's unwind bound independent
         // of the table capacity); the first equal entry wins
+        #[cfg(any(not(kani), test))]
+        {
+            let mut j = 0;
+            while j < n {
+                if TAB[j] == e {
+                    N = n; // native: do not keep the duplicate
+                    return (j + 1) as u16;
+                }
+                j += 1;
+            }
+            return (n + 1) as u16;
+        }
+        #[allow(unreachable_code)]
         let mut found = n;
         macro_rules! probe {
             ($($j:expr),*) => { $( if $j < n && found == n && TAB[$j] == e { found = $j; } )* };
@@ -122,7 +140,7 @@ pub fn name_of(d: &[u8]) -> u16 {
     assert!(d.len() == 32);
     let w0 = be64(d, 0) & 0x0000_ffff_ffff_ffff;
     if w0 != 0 || be64(d, 8) != 0 || be64(d, 16) != 0 || be64(d, 24) != 0 {
-        exclude_path();
+        exclude_path("digest is not a model name");
     }
     ((d[0] as u16) << 8) | d[1] as u16
 }
@@ -146,7 +164,7 @@ fn raw_label(b: &[u8]) -> (u32, u64) {
     let ones = 0x0101_0101_0101_0101u64;
     let wa_empty = len == 0 && top == ones && t1 == ones && t2 == ones && t3 == ones;
     if !zero_tail && !wa_empty {
-        exclude_path();
+        exclude_path("label is not in the modelled encoding");
     }
     (len, top)
 }
@@ -157,7 +175,7 @@ fn label_arg(b: &[u8]) -> (u32, u64) {
     if b.len() == 32 {
         // hashed label value (ModelWA encoding): tag 0xAB, length, top 8 bytes, zero tail
         if b[0] != 0xAB || be64(b, 13) != 0 || be64(b, 21) != 0 || b[29] != 0 || b[30] != 0 || b[31] != 0 {
-            exclude_path();
+            exclude_path("hashed label is not in the modelled encoding");
         }
         let len = ((b[1] as u32) << 24) | ((b[2] as u32) << 16) | ((b[3] as u32) << 8) | b[4] as u32;
         (len ^ 0x8000_0000, be64(b, 5))
@@ -173,7 +191,7 @@ fn short_bytes(b: &[u8]) -> u64 {
         (0xd1u64 << 24) | name_of(b) as u64
     } else {
         if b.len() > 2 {
-            exclude_path();
+            exclude_path("byte string longer than 2");
         }
         let b0 = if b.len() > 0 { b[0] } else { 0 };
         let b1 = if b.len() > 1 { b[1] } else { 0 };
